@@ -60,11 +60,13 @@ class C09(Oracle):
                 fl2 = {x: post.flags[x] for x in fl}
                 if fl != fl2:
                     v.append((f"C09/restart-differs", f"{k}: flags differ: {fl} -> {fl2}"))
-                if ctx.notes.get("last_refused_step") == i - 1:
+                if ctx.notes.get("refused_since_restart"):
                     ctx.probe("restart_after_failed_call")
+                ctx.notes["refused_since_restart"] = 0
             return v
         if not out.ok:
             ctx.notes["last_refused_step"] = i
+            ctx.notes["refused_since_restart"] = ctx.notes.get("refused_since_restart", 0) + 1
             same = pre.key() == post.key()
             cell = (tag or "untagged/valid-intent").replace("bad/", "")
             ctx.stats[f"matrix/refused/{cell}/{'same' if same else 'CHANGED'}"] += 1
